@@ -65,6 +65,16 @@ def crun (K : Comp S C O) (n : CNode S C) : List (CStep O) → CNode S C
   | [] => n
   | s :: ss => crun K (cstep K n s) ss
 
+/-- did the transaction HALT with its effects merged: all calls succeeded and the script did not abort afterwards
+    (`halts`; with the guards modelled — Model/Ledger/Guarded.lean — this is the model's PREDICTION of the VM state) -/
+def txOk (K : Comp S C O) (s : S) (c : C) (h : Nat) (tx : CTx O) : Bool :=
+  (K.runOps s c h tx.ops).isSome && tx.halts
+
+/-- the outcomes of the transactions of a block, in order -/
+def runBlockR (K : Comp S C O) (s : S) (c : C) (h : Nat) : List (CTx O) → List Bool
+  | [] => []
+  | tx :: txs => K.txOk s c h tx :: (let r := K.runTx s c h tx; runBlockR K r.1 r.2 h txs)
+
 /-- cache coherence of a component: after every call on a coherent state the cache is exactly what
     InitializeCache would build, and no call writes into the lower layer. -/
 structure Exact (K : Comp S C O) : Prop where
